@@ -373,18 +373,17 @@ func formatAppendAsIs(verb *formatVerb, buf *bytes.Buffer, arg cty.Value) error 
 	if !verb.Sharp && !arg.IsNull() {
 		// Unless the caller overrode it with the sharp flag, we'll try some
 		// specialized formats before we fall back on JSON.
+		// The documented default selections are %s for strings and %g for
+		// numbers, so flags and precision must behave as for those verbs.
 		switch arg.Type() {
 		case cty.String:
-			fmted := arg.AsString()
-			fmted = formatPadWidth(verb, fmted)
-			buf.WriteString(fmted)
-			return nil
+			asStr := *verb
+			asStr.Mode = 's'
+			return formatAppendString(&asStr, buf, arg)
 		case cty.Number:
-			bf := arg.AsBigFloat()
-			fmted := bf.Text('g', -1)
-			fmted = formatPadWidth(verb, fmted)
-			buf.WriteString(fmted)
-			return nil
+			// Go's fmt formats a *big.Float under %v exactly as under %g,
+			// so the verb can be passed through as it is.
+			return formatAppendNumber(verb, buf, arg)
 		}
 	}
 
